@@ -340,10 +340,10 @@ class Reaction:
         new = self.copy()
         if reactant is None:
             if new._phases:
-                _, reactants_index = new._stoichiometry.positive_index()
+                phases_index, reactants_index = new._stoichiometry.positive_index()
                 N_reactants = len(reactants_index)
                 if N_reactants == 1:
-                    new._reactant_index = reactants_index[0]
+                    new._reactant_index = (phases_index[0], reactants_index[0])
                 else:
                     raise ValueError('must pass reactant when multiple reactants are involved')
             else:
@@ -354,7 +354,12 @@ class Reaction:
                 else:
                     raise ValueError('must pass reactant when multiple reactants are involved')
         else:
-            new._reactant_index = new.chemicals.index(reactant)
+            reactant_index = new.chemicals.index(reactant)
+            if new._phases:
+                for phase_index, x in enumerate(new._stoichiometry[:, reactant_index]):
+                    if x: break
+                reactant_index = (phase_index, reactant_index)
+            new._reactant_index = reactant_index
         if X is not None: new.X = X
         new._rescale()
         return new
